@@ -14,7 +14,8 @@ LEVEL = ("Lean: for typed programs with plain heads and bodies, deleting a posit
          "the stable models, from the executable impliedCheck (Proofs/C08impl: supportedness + least model below T, all "
          "instances of the rule at once) - the check is evaluated by the driver on every top-level deletion the real pass "
          "makes; deleting a weaker copy of a literal (p(X), p(_)) is a strong equivalence in every program, from the "
-         "executable anonCheck (Proofs/C08anon), evaluated on every such deletion; the boolean step is a strong equivalence for every head semantics; ground-level schema theorems "
+         "executable anonCheck (Proofs/C08anon), also inside the condition of a body conditional literal or of an element "
+         "of a body aggregate (condCheck, Proofs/C08anonCond+C08anonStm), evaluated on every such deletion; the boolean step is a strong equivalence for every head semantics; ground-level schema theorems "
          "(supportedness M5, removal of an implied positive body atom M6+ on the definite-reduct class) and decision-kernel theorems about the executable model of cleanup.py (sign, "
          "argument positions, mapping sign, boolean elimination). The model (443 lines, whole pass after inline_arithmetic) "
          "is tied to cleanup.py by exact output comparison on generated programs; the step from syntactic mappings to the "
